@@ -59,6 +59,10 @@ type mstate struct {
 	// model does not depend on it, but an implementation that recycles per-connection state does, so
 	// it is part of the state key (states that differ only here must not be merged).
 	ghost []string
+	// impl: implementation state no reply has shown yet (which database the manager new
+	// connections start from points at).  Constant on a correct tree; part of the state key so that a
+	// path that disturbs it is expanded even when the model state it reaches was seen before.
+	impl string
 }
 
 func newM(c cfg) *mstate {
@@ -75,7 +79,7 @@ func (m *mstate) key(budget []int) uint64 {
 	for i, d := range m.dbs {
 		fmt.Fprintf(hs, "db%d:%s|", i, model.CanonString(d.Canon()))
 	}
-	fmt.Fprintf(hs, "sel%v|b%v|g%v", m.sel, budget, m.ghost)
+	fmt.Fprintf(hs, "sel%v|b%v|g%v|i%s", m.sel, budget, m.ghost, m.impl)
 	return hs.Sum64()
 }
 
@@ -274,6 +278,12 @@ func run(c cfg, path []event, al [][]string, record func(v viol)) (*mstate, []in
 					Detail: fmt.Sprintf("%s: database %d differs: %s", pathString(c, path, al), i, diff), Path: path})
 				return nil, nil, false
 			}
+		}
+	}
+	m.impl = "root=?"
+	for i, db := range x.mgr.DBs {
+		if db == x.mgr.CurrentDB {
+			m.impl = fmt.Sprintf("root=%d", i)
 		}
 	}
 	return m, budget, true
